@@ -104,7 +104,8 @@ TReset == /\ l <= Len(TraceLog) /\ Ln.e = "Reset" /\ l' = l + 1
 
 (* n insertions into an indefinite container, capacity logged at every change (C12 growth clause) *)
 TGrow == /\ l <= Len(TraceLog) /\ Ln.e = "grow" /\ l' = l + 1
-         /\ Ln.refused = 0 /\ Ln.size = Ln.n                       \* accepts any number of entries
+         /\ Ln.refused <= Ln.injected /\ Ln.size = Ln.n            \* accepts any number of entries (an insertion fails only when the allocator refused)
+         /\ Ln.under = 0 /\ Ln.changed_on_refusal = 0              \* the block really holds the recorded capacity; a refused insertion changes nothing
          /\ Ln.shrunk = 0 /\ Ln.over = 0 /\ Ln.wrong = 0           \* never shrinks, size within capacity, contents in order
          /\ Ln.reallocs <= 2 * Log2Ceil(Ln.n + 1) + 2                \* logarithmic number of reallocations
          /\ \A k \in 1..Len(Ln.caps) : Ln.caps[k][2] >= Ln.caps[k][1] /\ (k > 1 => Ln.caps[k][2] > Ln.caps[k - 1][2])
